@@ -56,6 +56,40 @@ pub enum V {
   Bad(Viol),
 }
 
+/// The cells of depth `dm` at the four corners of the cell (de, h), de < dm: a coarse entry stands
+/// for all its descendants, and the tightness clause speaks of every cell of the result.
+fn corner_descendants(de: u8, h: u64, dm: u8) -> [u64; 4] {
+  let sh = 2 * (dm - de) as u32;
+  let ones = (1u64 << sh) - 1;
+  let base = h << sh;
+  [base, base | (ones & 0x5555555555555555), base | (ones & 0xAAAAAAAAAAAAAAAA), base | ones]
+}
+
+/// Tightness of one entry: its own centre at its own depth, and -- for an entry coarser than the
+/// requested depth -- the centres of its four corner cells of the requested depth.
+fn entry_not_tight(q: &EllQ, c: &[f64; 3], de: u8, h: u64, dm: u8) -> Option<(String, String)> {
+  let dist_of = |d: u8, hh: u64| -> f64 {
+    let (xc, yc) = center_plane(d, hh);
+    let (l, b) = ref_unproj(xc, yc);
+    ang_dist_vec(&unit_vec(l, b), c)
+  };
+  let limit = q.a + 2.0 * max_c2v(de) + 1e-9;
+  let a = dist_of(de, h);
+  if a > limit {
+    return Some((format!("every cell centre within a + 2 * {:e} = {:e} of the ellipse centre", max_c2v(de), limit), format!("cell {}/{} has its centre at {:e}", de, h, a)));
+  }
+  if de < dm {
+    let limit = q.a + 2.0 * max_c2v(dm) + 1e-9;
+    for hh in corner_descendants(de, h, dm) {
+      let a = dist_of(dm, hh);
+      if a > limit {
+        return Some((format!("every cell centre within a + 2 * {:e} = {:e} of the ellipse centre", max_c2v(dm), limit), format!("cell {}/{}, a descendant of the entry {}/{}, has its centre at {:e}", dm, hh, de, h, a)));
+      }
+    }
+  }
+  None
+}
+
 pub fn check(q: &EllQ, listed_kf1: bool, part: &mut Part) -> V {
   let bad = |kind: &str, expected: String, actual: String| V::Bad(Viol { api: q.api().into(), kind: kind.into(), case: q.to_json(), expected, actual });
   if q.a >= HALF_PI {
@@ -102,12 +136,8 @@ pub fn check(q: &EllQ, listed_kf1: bool, part: &mut Part) -> V {
   // tightness
   let c = unit_vec(q.lon, q.lat);
   for &(de, h, _) in &out.entries {
-    let limit = q.a + 2.0 * max_c2v(de) + 1e-9;
-    let (xc, yc) = center_plane(de, h);
-    let (l, b) = ref_unproj(xc, yc);
-    let a = ang_dist_vec(&unit_vec(l, b), &c);
-    if a > limit {
-      return bad("not-tight", format!("every cell centre within a + 2 * {:e} = {:e} of the ellipse centre", max_c2v(de), limit), format!("cell {}/{} has its centre at {:e}", de, h, a));
+    if let Some((e, a)) = entry_not_tight(q, &c, de, h, out.depth_max) {
+      return bad("not-tight", e, a);
     }
   }
   // circular case: the cone witness oracle
@@ -176,13 +206,14 @@ pub fn check_deep_n(q: &EllQ, listed_kf1: bool, nbear: usize, part: &mut Part) -
     }
   }
   let c = unit_vec(q.lon, q.lat);
-  for &(de, h, _) in out.entries.iter().take(4000) {
-    let limit = q.a + 2.0 * max_c2v(de) + 1e-9;
-    let (xc, yc) = center_plane(de, h);
-    let (l, b) = ref_unproj(xc, yc);
-    let a = ang_dist_vec(&unit_vec(l, b), &c);
-    if a > limit {
-      return bad("not-tight", format!("every cell centre within a + 2 * {:e} = {:e} of the ellipse centre", max_c2v(de), limit), format!("cell {}/{} has its centre at {:e}", de, h, a));
+  // (every coarse entry; of the entries of the requested depth, the first 4000 and the last 4000)
+  let ne = out.entries.len();
+  for (k, &(de, h, _)) in out.entries.iter().enumerate() {
+    if de == out.depth_max && k >= 4000 && k + 4000 < ne {
+      continue;
+    }
+    if let Some((e, a)) = entry_not_tight(q, &c, de, h, out.depth_max) {
+      return bad("not-tight", e, a);
     }
   }
   if q.b == q.a {
@@ -313,6 +344,27 @@ pub fn run(ctx: &Ctx) -> i32 {
               V::Known(ex) => part.known(KF1, ex),
               V::Bad(v) => part.viol(v),
             }
+          }
+        }
+      }
+    }
+    // thin rotated ellipses (b / a = 0.05, 0.12; position angles around 45 and 135 degrees), tens
+    // of cells long: their bounding box in the tangent plane is far larger than the ellipse, and a
+    // coarse cell 4..6 levels above the requested depth is about as large as the ellipse is wide
+    // (a containment or rejection test written on the axis-aligned extents goes wrong exactly there)
+    for &k in &[40.0, 75.0, 130.0] {
+      let a = k * cell;
+      if a >= 0.6 {
+        continue;
+      }
+      for &ratio in &[0.05, 0.12] {
+        for &pa in &[0.6, 0.79, 0.95, 2.36] {
+          let q = EllQ { depth: d, delta: 0, lon, lat, a, b: a * ratio, pa };
+          part.stratum("deep-thin-rotated", 1, 1);
+          match check_deep(&q, listed_kf1, &mut part) {
+            V::Ok => {}
+            V::Known(ex) => part.known(KF1, ex),
+            V::Bad(v) => part.viol(v),
           }
         }
       }
